@@ -1,3 +1,227 @@
-/- C03 — property theorems (stub: the property is not claimed yet). -/
+/-
+  C03 — Parsing is total.
+
+  What a theorem can carry here is the library's share: its handlers, the retry inside the wrapper, the
+  number of handler invocations.  The tokenizer is a parameter: the statements quantify over EVERY token
+  sequence (arbitrary, hostile, no well-formedness).  The stdlib tokenizer's own totality and running time,
+  and the real debugger prompt, are observed in the tie (stream C03), not proved.  Serialisers
+  (`Node.html`, `docHTML`) are total Lean functions over every tree, including `None` attribute values and
+  odd tag names; that the Python serialisers are total on the same trees is the tie's part.
+-/
+import AHP.Lemmas.BuilderTop
 namespace AHP.C03
+open AHP AHP.Spec
+
+/-- **C03a.** Whatever the token, a handler of the plain parser either succeeds or raises
+    MultipleRootNodeException — nothing else (no index error on an empty stack, no other exception). -/
+theorem step_ok_or_multipleRoot (s : TState) (t : Token) :
+    (∃ s', stepT s t = .ok s') ∨ stepT s t = .multipleRoot := by
+  cases t with
+  | decl d => exact Or.inl ⟨s, rfl⟩
+  | unknownDecl d => exact Or.inl ⟨s, rfl⟩
+  | pi d => exact Or.inl ⟨s, rfl⟩
+  | end_ n => exact Or.inl ⟨_, rfl⟩
+  | comment c => simp only [stepT, addTextStrict]; split <;> simp
+  | entity c => simp only [stepT, addTextStrict]; split <;> simp
+  | charref c => simp only [stepT, addTextStrict]; split <;> simp
+  | start n a => simp only [stepT, handleStart]; split <;> (try split) <;> simp
+  | startend n a => simp only [stepT, handleStart]; split <;> (try split) <;> simp
+  | data d => simp only [stepT]; split <;> (try split) <;> (try split) <;> simp
+
+theorem run_ok_or_multipleRoot (ts : List Token) : ∀ s : TState,
+    (∃ s', runT s ts = .ok s') ∨ runT s ts = .multipleRoot := by
+  induction ts with
+  | nil => intro s; exact Or.inl ⟨s, rfl⟩
+  | cons t ts ih =>
+    intro s
+    rcases step_ok_or_multipleRoot s t with ⟨s', h⟩ | h
+    · simp only [runT, h]; exact ih s'
+    · right; simp [runT, h]
+
+/-- inside an open element no handler raises -/
+theorem step_inside_ok (s : TState) (h : s.stack ≠ []) (t : Token) : ∃ s', stepT s t = .ok s' := by
+  rcases step_ok_or_multipleRoot s t with h1 | h1
+  · exact h1
+  · exfalso
+    have hst : s.stack.isEmpty = false := by
+      cases hs : s.stack with
+      | nil => exact absurd hs h
+      | cons f fs => rfl
+    cases t <;> simp [stepT, addTextStrict, handleStart, hst] at h1
+    all_goals (split at h1 <;> simp_all)
+
+/-- the rest left by `items` is a suffix of its input -/
+theorem items_rest_suffix (k : Nat) : ∀ (open_ : List Str) (ts : List Token), ts.length < k →
+    ∃ pre, ts = pre ++ (items k open_ ts).2 := by
+  induction k with
+  | zero => intro _ ts h; simp at h
+  | succ k ih =>
+    intro open_ ts hk
+    cases ts with
+    | nil => exact ⟨[], by simp [items]⟩
+    | cons t ts =>
+      have hk' : ts.length < k := by simp at hk; omega
+      have hg : ∃ pre, t :: ts = pre ++ (items k open_ ts).2 := by
+        obtain ⟨pre, hp⟩ := ih open_ ts hk'
+        exact ⟨t :: pre, by rw [List.cons_append, ← hp]⟩
+      cases t with
+      | end_ n =>
+        simp only [items]
+        split
+        · exact ⟨[], rfl⟩
+        · exact hg
+      | startend n a => simp only [items]; exact hg
+      | decl d => simp only [items, textOf]; exact hg
+      | unknownDecl d => simp only [items, textOf]; exact hg
+      | pi d => simp only [items, textOf]; exact hg
+      | comment d => simp only [items, textOf]; exact hg
+      | entity d => simp only [items, textOf]; exact hg
+      | charref d => simp only [items, textOf]; exact hg
+      | data d => simp only [items, textOf]; split <;> exact hg
+      | start n a =>
+        simp only [items]
+        split
+        · exact hg
+        · obtain ⟨pre1, hp1⟩ := ih (lower n :: open_) ts hk'
+          have hl := (items_rest k (lower n :: open_) ts hk').2
+          have hl2 := afterContent_len (lower n) (items k (lower n :: open_) ts).2
+          obtain ⟨pre2, hp2⟩ := ih open_ (afterContent (lower n) (items k (lower n :: open_) ts).2) (by omega)
+          have hac : ∃ pre3, (items k (lower n :: open_) ts).2
+              = pre3 ++ afterContent (lower n) (items k (lower n :: open_) ts).2 := by
+            unfold afterContent
+            split
+            · split
+              · rename_i heq _; exact ⟨[_], by rw [heq]; rfl⟩
+              · exact ⟨[], rfl⟩
+            · exact ⟨[], rfl⟩
+          obtain ⟨pre3, hp3⟩ := hac
+          refine ⟨.start n a :: pre1 ++ pre3 ++ pre2, ?_⟩
+          simp only [List.cons_append, List.append_assoc]
+          rw [← hp2, ← hp3, ← hp1]
+
+private theorem mem_of_append_singleton_eq (e x : Token) : ∀ (pre ts r3 : List Token),
+    ts ++ [e] = pre ++ e :: x :: r3 → e ∈ ts := by
+  intro pre
+  induction pre with
+  | nil =>
+    intro ts r3 h
+    cases ts with
+    | nil => simp at h
+    | cons t ts' => simp at h; rw [h.1]; exact List.mem_cons_self
+  | cons p pre' ih =>
+    intro ts r3 h
+    cases ts with
+    | nil =>
+      have := congrArg List.length h
+      simp at this
+    | cons t ts' =>
+      simp only [List.cons_append, List.cons.injEq] at h
+      exact List.mem_cons_of_mem _ (ih ts' r3 h.2)
+
+/-- no end tag of the wrapper inside the input -/
+def NoWrapperEnd (ts : List Token) : Prop := ∀ t ∈ ts, t ≠ Token.end_ wrapperName
+
+/-- **C03b.** The single retry suffices: inside the wrapper, any token sequence without the wrapper's own
+    end tag — however hostile — is parsed without MultipleRootNodeException (and by C03a without any other
+    exception). -/
+theorem wrapped_never_fails (ts : List Token) (hw : NoWrapperEnd ts) :
+    ∃ s', runT TState.init (.start wrapperName [] :: ts ++ [.end_ wrapperName]) = .ok s' := by
+  let s1 : TState := ⟨[⟨wrapperName, AttrState.empty, []⟩], none⟩
+  have hs : stepT TState.init (.start wrapperName []) = .ok s1 := by
+    simp [stepT, handleStart, TState.init, TState.hasRoot, wrapper_lower, wrapper_not_void, intake, s1]
+  let l := ts ++ [Token.end_ wrapperName]
+  let K := l.length + 1
+  have hK : l.length < K := Nat.lt_succ_self _
+  have hitems := runT_items K s1 l hK (by simp [s1])
+  have hnames : names s1 = [wrapperName] := rfl
+  rw [hnames] at hitems
+  have hfin : ∃ s', (runT s1 l).fin = .ok s' := by
+    rw [hitems]
+    rcases (items_rest K [wrapperName] l hK).1 with hnil | ⟨m, r2, hm, hmem⟩
+    · rw [hnil]; exact ⟨_, rfl⟩
+    · have hmw : m = wrapperName := by simpa using hmem
+      subst hmw
+      -- the rest is a suffix of `ts ++ [end W]` that starts with `end W`: it is the last token
+      obtain ⟨pre, hpre⟩ := items_rest_suffix K [wrapperName] l hK
+      rw [hm] at hpre
+      have hr2 : r2 = [] := by
+        cases hr : r2 with
+        | nil => rfl
+        | cons x r3 =>
+          exfalso
+          rw [hr] at hpre
+          -- `end W` then occurs strictly before the end of `l`, i.e. inside `ts`
+          have hmemts : Token.end_ wrapperName ∈ ts := mem_of_append_singleton_eq _ _ _ _ _ hpre
+          exact hw _ hmemts rfl
+      rw [hm, hr2]
+      have hs1 : s1 = { (⟨[], none⟩ : TState) with stack := ⟨wrapperName, AttrState.empty, []⟩ :: (⟨[], none⟩ : TState).stack } := rfl
+      have hclose := stepT_close_own ⟨[], none⟩ wrapperName AttrState.empty (items K [wrapperName] l).1
+      rw [← hs1] at hclose
+      simp only [runT, hclose]
+      exact ⟨_, rfl⟩
+  obtain ⟨s', hs'⟩ := hfin
+  have : ∃ s'', runT s1 l = .ok s'' := by
+    rcases run_ok_or_multipleRoot l s1 with h | h
+    · exact h
+    · rw [h] at hs'; simp [Outcome.fin] at hs'
+  obtain ⟨s'', h''⟩ := this
+  exact ⟨s'', by simp only [List.cons_append, runT, hs]; exact h''⟩
+
+/-- **C03d.** The library's share of the time bound: a parse hands at most `2·|tokens| + 2` tokens to
+    its handlers (one pass, plus at most one retry over the same tokens and the wrapper's two tags). -/
+def handlerInvocations (toks : List Token) : Nat :=
+  toks.length + (match run BState.init toks with
+    | .multipleRoot => (wrapToks toks).length
+    | _ => 0)
+
+theorem wrapToks_length (toks : List Token) : (wrapToks toks).length = toks.length + 2 := by
+  unfold wrapToks
+  cases h : leadDoctype toks with
+  | none => simp
+  | some p =>
+    obtain ⟨pre, r⟩ := p
+    have htoks : toks = pre ++ r := by
+      unfold leadDoctype at h
+      split at h
+      · simp at h; rw [← h.1, ← h.2]; rfl
+      · split at h
+        · simp at h; rw [← h.1, ← h.2]; rfl
+        · simp at h
+      · simp at h
+    rw [htoks]; simp; omega
+
+theorem invocations_linear (toks : List Token) : handlerInvocations toks ≤ 2 * toks.length + 2 := by
+  unfold handlerInvocations
+  split
+  · rw [wrapToks_length]; omega
+  · omega
+
+/-- **C03 (first pass).** For every token sequence the first pass ends in a document or in
+    MultipleRootNodeException; in the second case the retry is taken (`feedTokens` is a total function whose
+    only other results would be the validating parser's exceptions, which the plain handlers never produce). -/
+theorem feed_never_other_exception (toks : List Token) :
+    (∃ d b, feedTokens toks = .doc d b) ∨ feedTokens toks = .raised .multipleRoot := by
+  unfold feedTokens
+  have h1 := run_ok_or_multipleRoot toks TState.init
+  have hrun : run BState.init toks = (runT TState.init toks).map (fun tr => ⟨tr, toks.foldl stepD none⟩) :=
+    run_eq toks BState.init
+  rcases h1 with ⟨s', h⟩ | h
+  · left
+    rw [hrun, h]
+    exact ⟨_, _, rfl⟩
+  · rw [hrun, h]
+    simp only [Outcome.map]
+    have h2 := run_ok_or_multipleRoot (wrapToks toks) TState.init
+    have hrun2 : run BState.init (wrapToks toks)
+        = (runT TState.init (wrapToks toks)).map (fun tr => ⟨tr, (wrapToks toks).foldl stepD none⟩) :=
+      run_eq (wrapToks toks) BState.init
+    rw [hrun2]
+    rcases h2 with ⟨s', h⟩ | h
+    · left; rw [h]; exact ⟨_, _, rfl⟩
+    · right; rw [h]; rfl
+
+/-! #### Non-vacuity -/
+example : NoWrapperEnd [.end_ "a".toList, .data "x".toList, .start "b<".toList [("/div".toList, none)]] := by
+  intro t ht; simp at ht; rcases ht with h | h | h <;> subst h <;> decide
+
 end AHP.C03
